@@ -349,7 +349,7 @@ const KW_SWAPS: &[(&str, &str)] = &[
 /// from the REAL tokenizer's tokens joined by single blanks.
 pub fn mutants(c: &Corpus, tier: &str) -> Vec<String> {
     let d = GenericDialect {};
-    let cap = if tier == "thorough" { usize::MAX } else { 120_000 };
+    let cap = if tier == "thorough" { usize::MAX } else { 160_000 };
     let mut seen: BTreeSet<String> = c.literals.iter().cloned().collect();
     let mut out = vec![];
     let mut push = |toks: Vec<String>, out: &mut Vec<String>| {
@@ -378,6 +378,13 @@ pub fn mutants(c: &Corpus, tier: &str) -> Vec<String> {
                 if up == *a { let mut t = toks.clone(); t[i] = b.to_string(); push(t, &mut out); }
             }
             if li % 5 == 0 && i % 4 == 0 { let mut t = toks.clone(); t.insert(i, toks[i].clone()); push(t, &mut out); }
+            // a literal swapped for a keyword that can stand in its place somewhere in the grammar
+            let first = toks[i].chars().next().unwrap_or(' ');
+            if first.is_ascii_digit() {
+                for b in ["ALL", "NULL", "DEFAULT"] { let mut t = toks.clone(); t[i] = b.to_string(); push(t, &mut out); }
+            } else if first == '\'' && (li + i) % 2 == 0 {
+                let mut t = toks.clone(); t[i] = "NULL".to_string(); push(t, &mut out);
+            }
         }
     }
     out
